@@ -37,6 +37,7 @@ type vScript struct {
 	failFactory bool
 	failExec    bool
 	failNotice  bool
+	pipe        bool // native only: in-memory transport instead of loopback TCP
 	ahead       bool // pacing: master far ahead (buffered hand-off) or lock-step
 	// serve, when set, computes the packets from the requested dump position (multi-attempt harness)
 	serve func(file string, offset uint32) [][]byte
@@ -70,6 +71,15 @@ type vConn struct {
 	closed chan struct{}
 	isDown bool
 	log    []vCall
+	buf    []byte // the connection's receive buffer: reused for every packet, as the real driver does
+}
+
+// vhDrvFill stands in for the driver filling its receive buffer (the engine's race monitor treats
+// vhDrv* functions as driver code running on the library's goroutine).
+func vhDrvFill(dst, src []byte) {
+	for i := range src {
+		dst[i] = src[i]
+	}
 }
 
 var vCurScript *vScript
@@ -153,7 +163,11 @@ func (c *vConn) ReadPacket() ([]byte, error) {
 		if !ok {
 			return nil, errConnLost
 		}
-		return p, nil
+		if len(p) > len(c.buf) {
+			c.buf = make([]byte, len(p))
+		}
+		vhDrvFill(c.buf, p)
+		return c.buf[:len(p)], nil
 	case <-c.closed:
 		return nil, errModelClosed
 	}
@@ -286,9 +300,7 @@ func VH_C05_Stream(cause, npk, ahead, hmode int) {
 		sc.failExec = true
 	case scNotice:
 		sc.failNotice = true
-	}
-	if cause == scNotice {
-		vhSkipNative("a failing dump request cannot be provoked through the real driver")
+		sc.pipe = true
 	}
 	env := vhStartEnv(sc)
 	defer env.stop()
@@ -435,7 +447,7 @@ func VH_C07_Handshake(nameLen int) {
 func VH_C07_Attempts(attempts int) {
 	ends := []uint32{200, 300, 400}
 	starts := []uint32{100, 200, 300}
-	sc := &vScript{}
+	sc := &vScript{pipe: true}
 	var requested []uint32
 	var files []string
 	sc.serve = func(file string, offset uint32) [][]byte {
@@ -458,9 +470,16 @@ func VH_C07_Attempts(attempts int) {
 	for a := 0; a <= attempts; a++ {
 		last := a == attempts
 		fault := -1
+		rejectAt := -1
 		if !last {
-			fault = vhChoose(3) // 0 handler rejects the first delivery, 1 master ERR, 2 connection lost
+			// 0 handler rejects delivery number rejectAt of this attempt (earlier ones are accepted),
+			// 1 master ERR, 2 connection lost, 3 the dump request itself fails
+			fault = vhChoose(4)
+			if fault == 0 {
+				rejectAt = vhChoose(3)
+			}
 		}
+		sc.failNotice = fault == 3
 		switch fault {
 		case 1:
 			sc.end, sc.errCode, sc.errMsg = endERR, 1236, []byte("x")
@@ -469,15 +488,15 @@ func VH_C07_Attempts(attempts int) {
 		default:
 			sc.end = endEOF
 		}
-		first := true
+		ndeliv := 0
 		before := len(requested)
 		ghostBefore := ghost
 		err := s.Stream(newVCtx(), func(t *Transaction) error {
-			if fault == 0 && first {
-				first = false
+			if ndeliv == rejectAt {
+				ndeliv++
 				return errHandler
 			}
-			first = false
+			ndeliv++
 			vhAssert(t.NowPosition.Offset == ghost, "a delivered transaction starts at the last accepted boundary")
 			accepted = append(accepted, t.NextPosition.Offset)
 			ghost = t.NextPosition.Offset
@@ -486,9 +505,14 @@ func VH_C07_Attempts(attempts int) {
 		_ = err
 		s.Error()
 		vhQuiesce()
-		vhAssert(len(requested) == before+1, "exactly one dump request per attempt")
-		vhAssert(int64(requested[before]) == ghostBefore, "the dump request carries the stored resume position")
-		vhAssert(files[before] == "bin.000001", "dump request names the file of the stored position")
+		if fault == 3 {
+			vhAssert(err != nil, "a failed dump request makes Stream return an error")
+			vhAssert(len(requested) == before, "a failed dump request is not served")
+		} else {
+			vhAssert(len(requested) == before+1, "exactly one dump request per attempt")
+			vhAssert(int64(requested[before]) == ghostBefore, "the dump request carries the stored resume position")
+			vhAssert(files[before] == "bin.000001", "dump request names the file of the stored position")
+		}
 		vhAssert(s.binlogPosition().Offset == ghost, "the stored position is the boundary after the last accepted transaction")
 	}
 	// every dump request asked for the boundary that had been reached before it
